@@ -1,6 +1,7 @@
 import Lean.Data.Json
 import Pyxv.Model.OpsToJson
 import Pyxv.Model.FromJsonChoices
+import Pyxv.Model.FromJsonSelects
 /-! Driver operation for the builder model with survey-level `choices`. -/
 namespace Pyxv.ToJson
 open Lean Pyxv Pyxv.JV
@@ -13,6 +14,13 @@ def opsFromJsonChoices (op : String) (j : Json) : Option (Except String Json) :=
       let d ← ofWire (← j.getObjVal? "d")
       let names ← (← (← j.getObjVal? "names").getArr?).toList.mapM fun x => do pure (← x.getStr?).toList
       match fromJsonC genCfg names 200 d with
+      | none => pure (Json.mkObj [("ok", false)])
+      | some e => pure (Json.mkObj [("ok", true), ("dump", toWire (toJson e []))])
+  | "tojson.reload_tree_selects" => some do
+      -- the builder model with the choices context (selects that carry their options)
+      let d ← ofWire (← j.getObjVal? "d")
+      let names ← (← (← j.getObjVal? "names").getArr?).toList.mapM fun x => do pure (← x.getStr?).toList
+      match fromJsonS genCfg names 200 [] d with
       | none => pure (Json.mkObj [("ok", false)])
       | some e => pure (Json.mkObj [("ok", true), ("dump", toWire (toJson e []))])
   | _ => none
